@@ -184,7 +184,8 @@ Lemma decodeHeader_cases s b src s' r :
   ( (r < 0 /\ (s' = s \/ s' = set_fi s fi_zero))
   \/ (b = true /\ d_stage s' = StoreSFrameSize /\ d_tmpInSize s' = zlen src /\ d_tmpInTarget s' = 8 /\
       Z.land (rd32 src) SKIP_MASK = FD_MAGIC_SKIPPABLE_START)
-  \/ (b = false /\ r = 4 /\ FD_minFHSize <= zlen src /\ d_stage s' = GetSFrameSize)
+  \/ (b = false /\ r = 4 /\ FD_minFHSize <= zlen src /\ d_stage s' = GetSFrameSize /\
+      Z.land (rd32 src) SKIP_MASK = FD_MAGIC_SKIPPABLE_START)
   \/ (d_stage s' = StoreFrameHeader /\ d_tmpInSize s' = zlen src /\ zlen src < d_tmpInTarget s' <= FD_header_array_size /\
       FD_minFHSize <= zlen src /\ r = zlen src /\
       (b = true -> d_header s' = d_header s) /\ rd32 src = FD_MAGICNUMBER /\
@@ -818,7 +819,7 @@ Proof.
     { apply Z.ltb_lt in ER. ss. split; [acct_tac|]. ss. split; [safe_tac|left; exact ER]. }
     apply Z.ltb_ge in ER. ss.
     destruct D as [D|[D|[D|[D|D]]]]; try lia.
-    + destruct D as (_ & -> & D7 & Dst).
+    + destruct D as (_ & -> & D7 & Dst & _).
       split; [acct_tac|]. ss. split; [|left; rewrite zlen_zdrop by lia; lia].
       unfold wf, stage_inv. rewrite Dst. repeat split; auto; congruence.
     + destruct D as (_ & _ & Dt & _). unfold FD_header_array_size in Dt. lia.
@@ -889,7 +890,7 @@ Proof.
   intros H Hr. pose proof (decodeHeader_cases _ _ _ _ _ H) as (_ & _ & _ & D).
   destruct D as [D|[D|[D|[D|D]]]]; [lia| | | |].
   - destruct D as (_ & -> & _). discriminate.
-  - destruct D as (_ & _ & _ & ->). discriminate.
+  - destruct D as (_ & _ & _ & -> & _). discriminate.
   - destruct D as (-> & _). discriminate.
   - destruct D as (_ & -> & _). discriminate.
 Qed.
@@ -1134,7 +1135,7 @@ Proof.
   { apply Z.ltb_lt in ER. split; [reflexivity|]. split; [exact Hs'|]. split; [lia|]. left. exact ER. }
   apply Z.ltb_ge in ER. split; [reflexivity|]. split; [exact Hs'|].
   destruct D as [D|[D|[D|[D|D]]]]; try lia.
-  - destruct D as (_ & -> & D7 & Dst). split; [unfold FD_minFHSize in *; lia|]. right.
+  - destruct D as (_ & -> & D7 & Dst & _). split; [unfold FD_minFHSize in *; lia|]. right.
     unfold wf, stage_inv. rewrite Dst. repeat split; auto; congruence.
   - exfalso. destruct D as (_ & _ & Dt & D7 & _ & _ & Dm & FLG & bm & bc & cs & cc & di & N4 & EF & FS).
     unfold FD_minFHSize in D7.
